@@ -1,5 +1,5 @@
-\* UDF node: stopUDF aborts the UDF on every graceful stop.
-\* Expected: NoAcceptedLoss is violated (KNOWN FINDING udf-stop-aborts, not repaired).
+\* the code as it was: stopUDF aborts the UDF on every graceful stop (stopF runs before Wait).
+\* Expected: NoAcceptedLoss is violated.
 SPECIFICATION Spec
 CONSTANTS
     MaxPts = 2
@@ -13,6 +13,7 @@ CONSTANTS
     InfluxStopF = FALSE
     ReaderDone = TRUE
     AlertCloseOnErr = TRUE
+    UdfStopAborts = TRUE
     HookNeedsTmLock = FALSE
 INVARIANTS
     TypeOK
